@@ -9,11 +9,117 @@
    harness/ecref.py (harness/props/C12.py), not a theorem. *)
 From Coq Require Import NArith ZArith List.
 From BU Require Import Base.Exn Base.Bytes Gen.Ecc Model.Ed25519Lib.
-From BU Require Lemmas.Ed25519Lib.
+From BU Require Lemmas.Ed25519Lib Lemmas.EccConstsOk.
 Import ListNotations.
 Open Scope Z_scope.
 
+Module L := Lemmas.Ed25519Lib.
+Module K := Lemmas.EccConstsOk.
+
+(* ===================== Part 1: the in-repo ed25519_lib, over the constants regenerated from its source *)
+
+(* the library's functions at the generated constants *)
+Definition lib_x_recover := x_recover ed_q ed_d ed_sqrtm1.
+Definition lib_int_encode := int_encode ed_coord_len.
+Definition lib_point_encode := point_encode ed_coord_len ed_sign_byte.
+Definition lib_point_decode_no_check := point_decode_no_check ed_q ed_coord_len ed_clamp ed_sign_bit lib_x_recover.
+Definition lib_point_decode := point_decode ed_q ed_d ed_coord_len ed_clamp ed_sign_bit lib_x_recover.
+Definition lib_scalar_reduce := scalar_reduce_bytes ed_l ed_coord_len.
+
 (* Python's pow(b, e, m) as the library uses it (_inv, _x_recover): square-and-multiply is exponentiation *)
 Theorem powmod_spec : forall b e m, 0 <= e -> m <> 0 -> powmod b e m = (b ^ e) mod m.
-Proof. exact Lemmas.Ed25519Lib.powmod_spec. Qed.
+Proof. exact L.powmod_spec. Qed.
 Print Assumptions powmod_spec.
+
+(* int_encode / int_decode: the 32-byte little-endian round trip, both ways, with the exact error domain *)
+Theorem int_encode_decode :
+  (forall v b, lib_int_encode v = Ok b -> bytes_ok b /\ length b = 32%nat /\ int_decode b = v) /\
+  (forall v, 0 <= v < 2 ^ 256 -> exists b, lib_int_encode v = Ok b) /\
+  (forall v, v < 0 \/ 2 ^ 256 <= v -> lib_int_encode v = Err OverflowError) /\
+  (forall b, bytes_ok b -> length b = 32%nat -> lib_int_encode (int_decode b) = Ok b).
+Proof. exact (L.int_encode_decode ed_coord_len K.ed_coord_len_32). Qed.
+Print Assumptions int_encode_decode.
+
+Example int_encode_decode_ex : lib_int_encode (2 ^ 255 - 19) = Ok (237%N :: repeat 255%N 30 ++ [127%N]).
+Proof. vm_compute. reflexivity. Qed.
+Print Assumptions int_encode_decode_ex.
+
+(* point_encode (point_decode_no_check s) = s for EVERY 32-byte string s -- curve point or not, canonical or
+   not -- with the library's own square-and-multiply x-recovery.  No number theory is needed: only that
+   x_recover lands in [0, q] and that q is odd.  Consequence: point_decode_no_check is injective. *)
+Theorem point_encode_decode_bits : forall s, bytes_ok s -> length s = 32%nat ->
+  exists P, lib_point_decode_no_check s = Ok P /\ lib_point_encode P = Ok s.
+Proof.
+  exact (L.point_encode_decode_bits_concrete ed_q ed_d ed_sqrtm1 ed_coord_len ed_clamp ed_sign_bit ed_sign_byte
+           K.ed_coord_len_32 K.ed_sign_byte_128 K.ed_q_range K.ed_q_odd K.ed_clamp_ones K.ed_sign_bit_pow).
+Qed.
+Print Assumptions point_encode_decode_bits.
+
+(* the same with an arbitrary x-recovery function that stays in [0, q] *)
+Theorem point_encode_decode_bits_any : forall (xrec : Z -> Z) s, (forall y, 0 <= xrec y <= ed_q) ->
+  bytes_ok s -> length s = 32%nat ->
+  exists P, point_decode_no_check ed_q ed_coord_len ed_clamp ed_sign_bit xrec s = Ok P /\ lib_point_encode P = Ok s.
+Proof.
+  exact (L.point_encode_decode_bits ed_q ed_coord_len ed_clamp ed_sign_bit ed_sign_byte
+           K.ed_coord_len_32 K.ed_sign_byte_128 K.ed_q_range K.ed_q_odd K.ed_clamp_ones K.ed_sign_bit_pow).
+Qed.
+Print Assumptions point_encode_decode_bits_any.
+
+(* wrong length: ValueError *)
+Theorem point_decode_wrong_length : forall s, length s <> 32%nat -> lib_point_decode_no_check s = Err ValueError.
+Proof. exact (L.point_decode_no_check_len ed_q ed_coord_len ed_clamp ed_sign_bit lib_x_recover). Qed.
+Print Assumptions point_decode_wrong_length.
+
+(* decode after encode.  NAMED HYPOTHESIS (square roots in GF(q), not proved here): on the pair (x, y) the
+   x-recovery returns one of the two roots x, q - x.  Then the sign bit restores x exactly. *)
+Theorem decode_encode_point : forall (xrec : Z -> Z) x y,
+  0 <= x < ed_q -> 0 <= y < ed_q ->
+  (xrec y = x \/ xrec y = ed_q - x) ->
+  exists s, lib_point_encode (x, y) = Ok s /\ bytes_ok s /\ length s = 32%nat /\
+            point_decode_no_check ed_q ed_coord_len ed_clamp ed_sign_bit xrec s = Ok (x, y).
+Proof.
+  exact (L.decode_encode_point ed_q ed_coord_len ed_clamp ed_sign_bit ed_sign_byte
+           K.ed_coord_len_32 K.ed_sign_byte_128 K.ed_q_range K.ed_q_odd K.ed_clamp_ones K.ed_sign_bit_pow).
+Qed.
+Print Assumptions decode_encode_point.
+
+(* the hypothesis is satisfiable, and for the library's own x-recovery: the kernel ran the square-and-multiply
+   on the generator's encoding regenerated from the source *)
+Example decode_encode_point_ex : lib_point_decode ed_g_enc_bytes = Ok (ed_gx, ed_gy) /\
+                                 lib_point_encode (ed_gx, ed_gy) = Ok ed_g_enc_bytes.
+Proof. exact (conj K.ed_g_decode K.ed_g_enc_ok). Qed.
+Print Assumptions decode_encode_point_ex.
+
+(* point_decode = point_decode_no_check + curve equation; every failure is a ValueError *)
+Theorem point_decode_spec : forall s P,
+  lib_point_decode s = Ok P <-> lib_point_decode_no_check s = Ok P /\ on_curve ed_q ed_d P = true.
+Proof. exact (L.point_decode_spec ed_q ed_d ed_coord_len ed_clamp ed_sign_bit lib_x_recover). Qed.
+Print Assumptions point_decode_spec.
+Theorem point_decode_value_error : forall s e, lib_point_decode s = Err e -> e = ValueError.
+Proof. exact (L.point_decode_err ed_q ed_d ed_coord_len ed_clamp ed_sign_bit lib_x_recover). Qed.
+Print Assumptions point_decode_value_error.
+
+(* scalar_reduce is reduction modulo the group order l (any input of at most 64 bytes) *)
+Theorem scalar_reduce_spec : forall b, bytes_ok b -> (length b <= 64)%nat ->
+  exists r, lib_scalar_reduce b = Ok r /\ bytes_ok r /\ length r = 32%nat /\ int_decode r = int_decode b mod ed_l.
+Proof. exact (fun b => L.scalar_reduce_spec ed_l ed_coord_len K.ed_coord_len_32 b K.ed_l_range). Qed.
+Print Assumptions scalar_reduce_spec.
+
+(* point_add's model is, definitionally, the twisted Edwards addition formula (a = -1) with _inv as division ... *)
+Theorem point_add_formula : forall x1 y1 x2 y2,
+  ed_add ed_q ed_d (x1, y1) (x2, y2) =
+    let t := (ed_d * x1 * x2 * y1 * y2) mod ed_q in
+    (((x1 * y2 + x2 * y1) * inv ed_q (1 + t)) mod ed_q, ((y1 * y2 + x1 * x2) * inv ed_q (1 - t)) mod ed_q).
+Proof. exact (L.ed_add_formula ed_q ed_d). Qed.
+Print Assumptions point_add_formula.
+(* ... and satisfies the defining equations whenever _inv inverts the two denominators (Fermat's little
+   theorem for q: a hypothesis here).  Associativity etc. are NOT claimed. *)
+Theorem point_add_defining_eqs : forall x1 y1 x2 y2,
+  let t := ed_d * x1 * x2 * y1 * y2 in
+  (inv ed_q (1 + t mod ed_q) * (1 + t)) mod ed_q = 1 mod ed_q ->
+  (inv ed_q (1 - t mod ed_q) * (1 - t)) mod ed_q = 1 mod ed_q ->
+  let '(x3, y3) := ed_add ed_q ed_d (x1, y1) (x2, y2) in
+  (x3 * (1 + t)) mod ed_q = (x1 * y2 + x2 * y1) mod ed_q /\
+  (y3 * (1 - t)) mod ed_q = (y1 * y2 + x1 * x2) mod ed_q.
+Proof. exact (L.ed_add_defining_eqs ed_q ed_d K.ed_q_range). Qed.
+Print Assumptions point_add_defining_eqs.
